@@ -87,6 +87,8 @@ def run_job(job):
             job_readfault(res, rng, w, home, job)
         elif job["kind"] == "config":
             job_config(res, rng, w, home, job)
+        elif job["kind"] == "membercols":
+            job_membercols(res, rng, w, home, job)
     finally:
         runner.rm_scratch(sc)
     return res
@@ -381,6 +383,71 @@ def job_readfault(res, rng, w, home, job):
     res.sample({"kind": "readfault", "faults": job["faults"]}, cap=1)
 
 
+MEMBER_NAMES2 = ["src/main.rs", "src/Lib.RS", "movie.MP4", "a/b/song.mp3", "doc.pdf", "Book.EPUB", "pic.jpeg", "font.ttf", "inner.zip", "x.tar.gz",
+                 "plain", "notes.txt", "d/", "d/empty.c", "archive.7z", "noext.", "two.dots.docx"]
+EXT_CLASSES = ["is_archive", "is_audio", "is_book", "is_doc", "is_font", "is_image", "is_source", "is_video"]
+
+
+def job_membercols(res, rng, w, home, job):
+    """Columns of archive members beyond the five the statement names: the extension classes (true exactly when the lower-cased
+    member name ends with an extension of the active list), is_empty (stored size 0), fsize (the same rendering an ordinary file
+    of that size gets) and dir (the member name's directory part)."""
+    root = os.path.join(w, "m")
+    os.mkdir(root)
+    members = []
+    with zipfile.ZipFile(os.path.join(root, "pack.zip"), "w") as z:
+        for nm in rng.sample(MEMBER_NAMES2, rng.randint(6, len(MEMBER_NAMES2))):
+            size = 0 if nm.endswith("/") else rng.choice([0, 1, 5, 999, 1000, 1024, 5000, 1500000])
+            zi = zipfile.ZipInfo(nm, (2021, 5, 6, 7, 8, 10))
+            zi.external_attr = ((stat.S_IFDIR | 0o755) if nm.endswith("/") else (stat.S_IFREG | 0o644)) << 16
+            zi.create_system = 3
+            zi.compress_type = zipfile.ZIP_DEFLATED
+            z.writestr(zi, b"\0" * size)
+            members.append((nm, size))
+    for size in set(sz for _n, sz in members):
+        with open(os.path.join(root, "sz%d" % size), "wb") as f:
+            f.truncate(size)
+    # the active extension lists = what fselect writes into a fresh configuration
+    r = q_run(res, w, home, "name from m into list")
+    try:
+        model.load_ext_lists(os.path.join(home, ".config/fselect/config.toml"))
+    except (OSError, KeyError, ImportError) as e:
+        res.inc("cannot read the default configuration: %s" % e)
+        return
+    cols = ["path", "size", "fsize", "dir", "is_empty"] + EXT_CLASSES
+    q = "%s from m archives into list" % ", ".join(cols)
+    r = q_run(res, w, home, q)
+    ctx = {"query": q, "members": members, "result": r.brief()}
+    if r.verdict != "ok" or r.rc != 0 or r.err or r.panicked:
+        if r.verdict in ("ok", "busy", "blocked"):
+            res.viol("`%s`: %s status %s stderr %r" % (q, r.verdict, r.rc, r.err[:150]), ctx)
+        return
+    rows = [dict(zip(cols, x)) for x in r.rows(len(cols))]
+    fsize_of = {int(x["size"]): x["fsize"] for x in rows if x["path"].startswith("m/sz")}
+    got = {x["path"]: x for x in rows if x["path"].startswith("[")}
+    b = lambda v: "true" if v else "false"
+    for nm, size in members:
+        cells = got.get("[m/pack.zip] " + nm)
+        if cells is None:
+            res.viol("member %r is not listed" % nm, ctx)
+            return
+        want = {"size": str(size), "fsize": fsize_of.get(size), "dir": os.path.dirname(nm.rstrip("/")) if not nm.endswith("/") else None}
+        if not nm.endswith("/"):
+            want["is_empty"] = b(size == 0)
+        low = model.ascii_lower(nm)
+        for c in EXT_CLASSES:
+            want[c] = b(any(low.endswith(x) for x in model.EXT_LISTS[c]))
+        for c, v in want.items():
+            if v is not None and cells[c] != v:
+                res.viol("member %r (stored size %d): %s printed %r, expected %r" % (nm, size, c, cells[c], v), ctx)
+                return
+        res.nt("membercols|%s|%d" % (nm, size))
+        for c in EXT_CLASSES:
+            if want[c] == "true":
+                res.cover("member_ext_classes", c)
+    res.count("member_rows_with_extra_columns", len(members))
+
+
 def job_config(res, rng, w, home, job):
     root = os.path.join(w, "g")
     os.mkdir(root)
@@ -422,6 +489,8 @@ def main(chk):
     for i in range(0, len(faults), 2 if not quick else 4):
         jobs.append({"id": "rf%d" % i, "kind": "readfault", "seed": job_seed(chk.seed, "C19", "rf%d" % i), "faults": faults[i:i + (2 if not quick else 4)]})
     jobs.append({"id": "cfg", "kind": "config", "seed": 1})
+    for i in range(24 if quick else 120):
+        jobs.append({"id": "mc%d" % i, "kind": "membercols", "seed": job_seed(chk.seed, "C19", "mc%d" % i)})
     if not quick:
         corrupt = [j for j in jobs if j["kind"] == "corrupt"]
         jobs += chk.shard(corrupt + [j for j in jobs if j["kind"] == "random"][:60], "asan", 120)
